@@ -178,6 +178,15 @@ CHECKS["C12"] = dict(
     technique="property-based testing (proptest): round-trip against the appended list and an independent frame parser, exhaustive-per-case truncation sweep, generated multi-threaded runs with libc interposition",
 )
 
+CHECKS["C09"] = dict(
+    engine="pbt",
+    category="exploration",
+    text="Generated-input search over (pristine file, damage plan): ssts (vsst table generators + real builder), logs (LogBuilder + WriteBatch, some with split frames and padding) and manifests (real Manifest::apply) are written, every byte is tagged with its region by an independent format walker, and 1-3 damages {bit flip, byte overwrite, truncation, appended random / zero / same-file suffix, clustered next-byte damage} are drawn per region class so that final block, trailer, headers, CRC digits and separators are hit as often as data. Oracle: every observation (open, forward and backward walk, loads at several timestamps, metadata, LogIterator drain, log_to_setsum, ManifestIterator, Manifest::open) on the damaged file is an error or equals the pristine observation (a genuine prefix followed by an error is allowed; a clean short read only after a truncation); no panic (catch_unwind, aborts attributed through a signal handler); the largest single allocation (counting global allocator) stays within the documented bound. In addition, for a few generated files per run EVERY single-bit flip, EVERY truncation length and 0x00/0xff at EVERY offset are enumerated, and the committed fuzz seed corpus is replayed through the reference-free oracle of the libFuzzer targets.",
+    design_ref="DESIGN.md §5 C09",
+    note="Known finding R-O (unchecksummed sst final block: metadata()/fast_setsum() can change silently; entries and loads never do) is excluded by region tag in non-strict mode and counted. Damage that is itself well-formed content (an appended slice made of whole CRC-valid frames / lines of the same file) is outside the damage model. The cargo-fuzz targets under /verif/fuzz are a thorough-workflow extra, not part of the registered commands.",
+    technique="property-based testing (proptest-generated files and region-aimed damage plans, per-file exhaustive single-damage enumeration) with a pristine-vs-damaged differential oracle, allocation and panic oracles; libFuzzer corpus replay",
+)
+
 NOT_YET = {
 }
 
